@@ -2,3 +2,5 @@ pub mod c03;
 pub mod c04;
 pub mod c10;
 pub mod vmrun;
+pub mod pipe;
+pub mod c05;
